@@ -387,8 +387,30 @@ func vfH_C20_waitqueue() {
 			model = append(model, vfWEnt{l, p})
 		}
 	}
+	// entries already answered (timeouted) stay in the queue until the implementation chooses to drop
+	// them (compaction in Push, or when they reach the head): the model keeps them, and the
+	// comparison is over the live entries
+	dropLeadingDead := func() {
+		for len(model) > 0 && model[0].l.timeouted {
+			model = model[1:]
+		}
+	}
 	pop := func() {
 		r := q.Pop()
+		for r != nil && r.timeouted {
+			found := false
+			for i := range model {
+				if !model[i].l.timeouted {
+					break
+				}
+				if model[i].l == r {
+					found = true
+				}
+			}
+			vfAssert(found, "wait queue: Pop returned an answered entry that is not in front of the first live one")
+			r = q.Pop()
+		}
+		dropLeadingDead()
 		if len(model) == 0 {
 			vfAssert(r == nil, "wait queue: Pop on empty returned an element")
 		} else {
@@ -400,9 +422,37 @@ func vfH_C20_waitqueue() {
 	for i := 0; i < N; i++ {
 		push(0)
 	}
-	P := [3]int{0, 1, 5}[vfChoice("prepop", 3)]
-	for i := 0; i < P; i++ {
+	// the long fills (each path re-executes them) take two of the four pre-pop counts and two of the three hole variants
+	P := 0
+	if N >= 150 {
+		P = [2]int{0, 5}[vfChoice("prepop", 2)]
+	} else {
+		P = [4]int{0, 1, 5, N}[vfChoice("prepop", 4)]
+	}
+	for i := 0; i < P && i < N; i++ {
 		pop()
+	}
+	if !prioMode && len(model) > 0 {
+		// one queued request has been answered meanwhile (timed out / cancelled): first, middle or none
+		nh := 3
+		if N >= 150 {
+			nh = 2
+		}
+		switch vfChoice("hole", nh) {
+		case 1:
+			model[len(model)/2].l.timeouted = true
+		case 2:
+			model[0].l.timeouted = true
+		}
+	}
+	live := func() []*Lock {
+		var out []*Lock
+		for _, e := range model {
+			if !e.l.timeouted {
+				out = append(out, e.l)
+			}
+		}
+		return out
 	}
 	for step := 0; step < 4; step++ {
 		switch vfChoice(vfName("op", step), 6) {
@@ -419,23 +469,26 @@ func vfH_C20_waitqueue() {
 			prioMode = false
 		case 3:
 			h := q.Head()
+			lv := live()
 			if len(model) == 0 {
 				vfAssert(h == nil, "wait queue: Head on empty returned an element")
-			} else {
-				vfAssert(h == model[0].l, "wait queue: Head returned the wrong element")
+			} else if h != nil && !h.timeouted {
+				vfAssert(len(lv) > 0 && h == lv[0], "wait queue: Head returned the wrong element")
+			} else if h == nil {
+				vfAssert(len(lv) == 0, "wait queue: Head is empty although live entries are queued")
 			}
 			var got []*Lock
 			for _, n := range q.IterNodes() {
 				for _, l := range n {
-					if l != nil {
+					if l != nil && !l.timeouted {
 						got = append(got, l)
 					}
 				}
 			}
-			vfAssert(len(got) == len(model), "wait queue: iteration yields a different number of elements")
+			vfAssert(len(got) == len(lv), "wait queue: iteration yields a different number of elements")
 			for i := range got {
-				if i < len(model) {
-					vfAssert(got[i] == model[i].l, "wait queue: iteration yields the wrong element or order")
+				if i < len(lv) {
+					vfAssert(got[i] == lv[i], "wait queue: iteration yields the wrong element or order")
 				}
 			}
 		case 4:
@@ -450,12 +503,14 @@ func vfH_C20_waitqueue() {
 				model = sorted
 			}
 		}
-		vfAssert(q.Len() == len(model), "wait queue: Len disagrees with the model")
+		vfAssert(q.Len() >= len(live()) && q.Len() <= len(model), "wait queue: Len disagrees with the model")
 	}
-	for len(model) > 0 {
+	for len(live()) > 0 {
 		pop()
 	}
-	vfAssert(q.Pop() == nil, "wait queue: not empty at the end")
+	for r := q.Pop(); r != nil; r = q.Pop() {
+		vfAssert(r.timeouted, "wait queue: not empty at the end")
+	}
 	vfReach("end")
 }
 
